@@ -281,8 +281,13 @@ def _xr_samples():
                 for container in ("DataArray", "Dataset"):
                     yield dict(kind="reproject", gbox=nm, dst=dst, container=container, backing="numpy")
             yield dict(kind="reproject", gbox=nm, dst="EPSG:3857", container="DataArray", backing="dask")
+        # same CRS as the source, destination of one row / one column / one pixel with another pixel size
+        for nm in ("north_up(7, 9)", "south_up_nonsquare(64, 33)"):
+            for dshape in ((1, 5), (4, 1), (1, 1)):
+                for container in ("DataArray", "Dataset"):
+                    yield dict(kind="reproject", gbox=nm, dst="same-crs-geobox", dshape=dshape, container=container, backing="numpy")
 
-    return "30 GeoBoxes (north-up / mirrored / south-up non-square / rotated / sheared x shapes 7x9, 1x6, 5x1, 1x1, 64x33; awkward resolution; GCP-based: plain, cropped, padded, zoomed out) x 3 dimension layouts x numpy/dask round trips; 2 (6 thorough) random sequences of 1-5 operations (slice, reversed, strided, arithmetic, astype, pickle) per GeoBox; 35 reprojections (DataArray/Dataset, to a CRS or to a GeoBox, numpy/dask)", gen()
+    return "30 GeoBoxes (north-up / mirrored / south-up non-square / rotated / sheared x shapes 7x9, 1x6, 5x1, 1x1, 64x33; awkward resolution; GCP-based: plain, cropped, padded, zoomed out) x 3 dimension layouts x numpy/dask round trips; 2 (6 thorough) random sequences of 1-5 operations (slice, reversed, strided, arithmetic, astype, pickle) per GeoBox; 35 reprojections (DataArray/Dataset, to a CRS or to a GeoBox, numpy/dask) + 12 onto a single-row / single-column / single-pixel GeoBox in the source's own CRS with another pixel size", gen()
 
 
 def _gbox_close(r, g, px_tol=1e-6):
@@ -404,7 +409,14 @@ def _xr_oracle(args, run=None):
     # reproject
     stale = dict(crs="EPSG:9999", crs_wkt="stale", epsg=1234, units="K")  # (a grid_mapping attribute pointing nowhere would make the INPUT ill-formed)
     xx = mk(g, "yx", args["backing"], attrs=stale)
-    if args["dst"] == "geobox":
+    if args["dst"] == "same-crs-geobox":
+        from affine import Affine
+
+        bb = g.boundingbox
+        dny, dnx = args["dshape"]
+        dst = GeoBox((dny, dnx), Affine(bb.span_x / (dnx * 1.7), 0, bb.left + bb.span_x * 0.1, 0, -bb.span_y / (dny * 2.3), bb.top - bb.span_y * 0.2), g.crs)
+        how = dst
+    elif args["dst"] == "geobox":
         dst = GeoBox.from_bbox(g.footprint("EPSG:3857").boundingbox, resolution=max(1.0, g.footprint("EPSG:3857").boundingbox.span_x / 11), tight=True)
         how = dst
     else:
@@ -503,10 +515,10 @@ def _mk_src(m, g, layout, attrs):
     return src
 
 
-def _lemma_reproject_assembly(sny, snx, srx, sry, stx, sty, dny, dnx, drx, dry, dtx, dty, layout, src_nodata, dst_nodata, stale):
+def _lemma_reproject_assembly(sny, snx, srx, sry, stx, sty, dny, dnx, drx, dry, dtx, dty, layout, src_nodata, dst_nodata, stale, same_crs):
     aff = repo("affine").Affine
     g = _geobox((sny, snx), aff(srx, 0, stx, 0, sry, sty), "EPSG:32633")
-    dst = _geobox((dny, dnx), aff(drx, 0, dtx, 0, dry, dty), "EPSG:4326")
+    dst = _geobox((dny, dnx), aff(drx, 0, dtx, 0, dry, dty), "EPSG:32633" if same_crs else "EPSG:4326")
     log = []
     attrs = {"units": "K", "long_name": "temperature"}
     if stale:
@@ -549,19 +561,20 @@ def _lemma_reproject_assembly(sny, snx, srx, sry, stx, sty, dny, dnx, drx, dry, 
     claim(kw.get("resampling") == "bilinear" and kw.get("ydim") == ydim and kw.get("src_nodata") == want_src_nd and kw.get("dst_nodata") == want_dst_nd, "resampling, Y axis, source nodata (from the attribute) and destination nodata (explicit, else the source's) passed on")
     # -- the object that comes back
     claim(out.values == ("warped", ("empty-array", *empties[0][1:])) or out.data == ("warped", ("empty-array", *empties[0][1:])), "the warped array is wrapped")
-    claim(out.dims == (*src.dims[:ydim], "latitude", "longitude", *src.dims[ydim + 2 :]), "dimensions: the destination's spatial dimensions in place of the source's")
+    sdim = ("y", "x") if same_crs else ("latitude", "longitude")
+    claim(out.dims == (*src.dims[:ydim], *sdim, *src.dims[ydim + 2 :]), "dimensions: the destination's spatial dimensions in place of the source's")
     claim(not any(k in out.attrs for k in ("crs", "crs_wkt", "grid_mapping", "gcps", "epsg")), "stale spatial attributes are removed")
     claim(out.attrs.get("units") == "K" and out.attrs.get("long_name") == "temperature", "other attributes are kept")
     if want_dst_nd is None:
         claim("nodata" not in out.attrs and "_FillValue" not in out.attrs, "no nodata: no nodata attribute")
     else:
         claim(out.attrs.get("nodata") == want_dst_nd, "nodata attribute = the destination nodata")
-    claim("y" not in out.coords and "x" not in out.coords and "y_aux" not in out.coords, "every coordinate riding on a source spatial dimension is dropped")
+    claim("y_aux" not in out.coords and all(out.coords[k] is not src.coords[k] for k in ("y", "x") if k in out.coords) and (same_crs or ("y" not in out.coords and "x" not in out.coords)), "every coordinate riding on a source spatial dimension is dropped (same-named destination axes carry fresh labels)")
     claim(all((k in out.coords and out.coords[k] is src.coords[k]) for k in ("time", "band") if k in src.coords), "coordinates of the other dimensions are kept")
-    claim(out.encoding.get("grid_mapping") == "spatial_ref" and out.coords["spatial_ref"] is not src.coords["spatial_ref"], "a fresh CRS coordinate is attached and referenced")
+    claim(out.encoding.get("grid_mapping") == "spatial_ref" and "spatial_ref" in out.coords, "a CRS coordinate is attached and referenced")
     r = st.geobox
     claim(r is not None and And(r.shape.y == dny, r.shape.x == dnx) and bool(_same_affine(r.affine, dst.affine)), "the GeoBox recovered from the result is the requested destination grid")
-    claim(r.crs == dst.crs and r.crs != g.crs, "... CRS included")
+    claim(r.crs == dst.crs and (same_crs or r.crs != g.crs), "... CRS included")
 
 
 lemma(
@@ -570,7 +583,7 @@ lemma(
     inputs=dict(
         sny=Int(ge=2), snx=Int(ge=2), srx=Real(gt=0), sry=Real(lt=0), stx=Real(), sty=Real(),
         dny=Int(ge=1), dnx=Int(ge=1), drx=Real(gt=0), dry=OneOf(Real(lt=0), Real(gt=0)), dtx=Real(), dty=Real(),
-        layout=OneOf("yx", "tyx", "yxb"), src_nodata=OneOf(None, -9999), dst_nodata=OneOf(None, 255), stale=Bool(),
+        layout=OneOf("yx", "tyx", "yxb"), src_nodata=OneOf(None, -9999), dst_nodata=OneOf(None, 255), stale=Bool(), same_crs=Bool(),
     ),
     body=_lemma_reproject_assembly,
     unstub=[f"{XR}:xr_coords", f"{MATH}:affine_from_axis", f"{MATH}:data_resolution_and_offset", f"{MATH}:is_affine_st", f"{MATH}:maybe_int"],
